@@ -76,9 +76,22 @@ def CodonTable.withStarts (nuc : List Nat) (t : CodonTable) (starts : List (List
   match mapE (encodeChars nuc) starts with
   | .error e => .error e
   | .ok sc =>
-    match sc.mapM codonNumber with
-    | none => .error .valueError
-    | some st => .ok { t with starts := st }
+    if sc.isEmpty then .error .valueError      -- numpy cannot broadcast shape (0,) against (3,)
+    else
+      match sc.mapM codonNumber with
+      | none => .error .valueError
+      | some st => .ok { t with starts := st }
+
+/-- `with_codon_mappings(codon_dict)`: a *new* table (deep copy) whose slots are overwritten by the
+given items; tables are values, the table it is derived from is not touched. -/
+def CodonTable.withMappings (nuc prot : List Nat) (t : CodonTable) (dict : List (List Nat × Nat)) :
+    Except Err CodonTable :=
+  match tableFill nuc prot (t.codons.map some) dict with
+  | .error e => .error e
+  | .ok tbl =>
+    match allSome tbl with
+    | some cs => .ok { t with codons := cs }
+    | none => .error (.other "unreachable")
 
 /-- `CodonTable.load`: the rows `AA/Init/Base1..3` of one table of `codon_tables.txt`. -/
 def codonTableOfRows (nuc prot : List Nat) (aa init b1 b2 b3 : List Nat) : Except Err CodonTable :=
